@@ -1033,8 +1033,14 @@ type c14JoinSpec struct {
 func (x *c14Run) socketBurst(srv *c14Server, specs []c14JoinSpec, concurrent bool) []*c14Join {
 	res := make([]*c14Join, len(specs))
 	if !concurrent {
+		// strictly sequential: the next join starts only after the server has registered the
+		// previous one (the server sends peer_list right after adding the peer to its hub; the
+		// 101 response alone precedes that registration)
 		for i, s := range specs {
 			res[i] = srv.join(nil, s.Code, s.Role, s.Peer, nil)
+			if res[i].Upgraded() && !res[i].WS.WaitRegistered(3*time.Second) {
+				x.st.count("sequential_join_without_peer_list", 1)
+			}
 		}
 		return res
 	}
@@ -1308,6 +1314,7 @@ func (x *c14Run) hostOnly(r c14Round, srv *c14Server) (c14Create, *c14Join, bool
 		x.e.R.Inconcl(fmt.Sprintf("%s %s: host could not connect: %v", r.ID, r.key(), host.brief()))
 		return sess, nil, false
 	}
+	host.WS.WaitRegistered(3 * time.Second) // routable from now on
 	return sess, host, true
 }
 
